@@ -15,7 +15,7 @@ RULE = ("each case is a unit-scaled Linear / LinearReadout / Conv1d(single outpu
         "upstream gradient with no zero entry; parameters reach the optimizer flat, as one explicit multi-tensor group or as groups of "
         "one; depth containers may hold one tied layer instance; layer(x) is recorded before and after one real optimizer.step(). "
         "Non-trivial = "
-        "fan_in > 1; distinct = (layer kind, fan_in, fan_out, kernel, depth, optimizer, constraint).")
+        "fan_in > 1; distinct = (layer kind, fan_in, fan_out, kernel, depth, optimizer, constraint). A quarter of the cases mix in an ordinary torch parameter with allow_non_unit_scaling_params=True; stacks may be built from clones of one template and copied once more before training; lr may be a 0-dim tensor.")
 ASSUMPTIONS = ["torch.optim.Adam with eps=0 moves each weight by lr*sign(grad) on the first step"]
 IMPORTS = ["unit_scaling._modules", "unit_scaling.optim", "unit_scaling.functional"]
 REQUIRED_MONITORS = ["step:outputs-compared"]
